@@ -99,6 +99,31 @@ Fixpoint subseq_items (xs ys : list node) {struct ys} : bool :=
       end
   end.
 
+(* C09: every JSX-free statement of the input, at any depth, is a statement of the output
+   (as many times as it was written) *)
+Definition ends_with (x : String.string) (s : str) : bool := starts_with (rev (s_ x)) (rev s).
+Arguments ends_with _%string_scope _.
+Definition is_stmt (n : node) : bool :=
+  match n with
+  | Block _ _ => true
+  | NObj _ => ends_with "Statement" (ntype n) || ends_with "Declaration" (ntype n)
+  | _ => false
+  end.
+Fixpoint remove_jv (x : jv) (l : list jv) : option (list jv) :=
+  match l with
+  | [] => None
+  | y :: r => if jv_eqb x y then Some r
+              else match remove_jv x r with Some r' => Some (y :: r') | None => None end
+  end.
+Fixpoint sub_multiset (xs ys : list jv) : bool :=
+  match xs with
+  | [] => true
+  | x :: r => match remove_jv x ys with Some ys' => sub_multiset r ys' | None => false end
+  end.
+Definition stmts_kept (input output : node) : bool :=
+  sub_multiset (map enc (filter (fun n => is_stmt n && jsx_free n) (Lemmas.NodeInd.subs input)))
+               (map enc (filter is_stmt (Lemmas.NodeInd.subs output))).
+
 Definition extras (c : jv) (model_out : jv) : list (str * str) :=
   let E := env_of c in
   let real_j := jfield_d "output" c in
@@ -140,6 +165,7 @@ Definition extras (c : jv) (model_out : jv) : list (str * str) :=
        output (resolveType may touch defineComponent statements: only decided with it off) *)
     (s_ "oC09items", b2s (if o_resolve_type (e_opts E) then true
                           else subseq_items (filter jsx_free (module_items input)) (module_items real)));
+    (s_ "oC09stmts", b2s (if o_resolve_type (e_opts E) then true else stmts_kept input real));
     (s_ "jsxfree_in", b2s (jsx_free input));
     (s_ "same_in", b2s (jv_eqb real_j (jfield_d "input" c)));
     (s_ "oC09idem", b2s (match rdiags with
